@@ -123,6 +123,20 @@ class HiddenTunnelCommunity(TunnelCommunity):
 
         self.register_task("do_peer_discovery", self.do_peer_discovery, interval=10)
 
+    async def unload(self) -> None:
+        """
+        Unload the tunnel community and the PEX communities that we still run for introduction points.
+        """
+        await super().unload()
+
+        # An introduction point that was set up while we were unloading leaves its PEX community behind.
+        while self.pex:
+            _, pex = self.pex.popitem()
+            if self.ipv8 is not None and pex in self.ipv8.overlays:
+                await self.ipv8.unload_overlay(pex)
+            else:
+                await pex.unload()
+
     def join_swarm(self, info_hash: bytes, hops: int, callback: Callable[[Address], None] | None = None,
                    seeding: bool = True) -> None:
         """
